@@ -1081,8 +1081,8 @@ impl<'a, T: DeltaVal> WalkIter<T> for DeltaW<'a, T> {
 struct DeltaSusp(hexane::DeltaIterState);
 
 /// Signature + text of a query that panicked.
-pub fn query_panic(q: &str, p: String) -> Mis {
-    (format!("{q}|{}", amv::fw::panic_sig(&p)), format!("{q} panicked: {p}"))
+pub fn query_panic(q: &str, call: String, p: String) -> Mis {
+    (format!("{q}|{}", amv::fw::panic_sig(&p)), format!("{call} panicked: {p}"))
 }
 
 macro_rules! impl_delta {
@@ -1261,7 +1261,7 @@ macro_rules! impl_delta {
                         got.sort();
                         (got, DeltaColumn::find_first(self, tv))
                     }) {
-                        Err(p) => out.push(query_panic("find_by_value", p)),
+                        Err(p) => out.push(query_panic("find_by_value", format!("find_by_value({t})"), p)),
                         Ok((got, first)) => {
                             if got != exp {
                                 out.push(("find_by_value".into(), format!("find_by_value({t}) = {got:?}, model {exp:?}")));
@@ -1288,7 +1288,7 @@ macro_rules! impl_delta {
                         got.sort();
                         got
                     }) {
-                        Err(p) => out.push(query_panic("find_by_range", p)),
+                        Err(p) => out.push(query_panic("find_by_range", format!("find_by_range({lo}..{hi})"), p)),
                         Ok(got) => {
                             if got != exp {
                                 out.push(("find_by_range".into(), format!("find_by_range({lo}..{hi}) = {got:?}, model {exp:?}")));
@@ -1310,7 +1310,7 @@ macro_rules! impl_delta {
                         got.sort();
                         got
                     }) {
-                        Err(p) => out.push(query_panic("find_by_range-wide-bounds", p)),
+                        Err(p) => out.push(query_panic("find_by_range-wide-bounds", format!("find_by_range({lo}..{hi})"), p)),
                         Ok(got) => {
                             if got != exp {
                                 out.push(("find_by_range-wide-bounds".into(), format!("find_by_range({lo}..{hi}) = {got:?}, model {exp:?}")));
@@ -1335,7 +1335,7 @@ macro_rules! impl_delta {
                     let exp = model_scope(model, w.start, w.end, &target);
                     counts.push(("scope_queries", 1));
                     match amv::fw::catch(|| DeltaColumn::scope_to_value(self, target, w.clone())) {
-                        Err(p) => out.push(query_panic("scope_to_value", p)),
+                        Err(p) => out.push(query_panic("scope_to_value", format!("scope_to_value({}, {w:?})", target.show()), p)),
                         Ok(got) => {
                             if got != exp {
                                 out.push(("scope_to_value".into(), format!("scope_to_value({}, {w:?}) = {got:?}, model {exp:?}", target.show())));
